@@ -754,6 +754,12 @@ class Builtin:
                 ok = bool(self.items)
                 env[args[0][2]] = self.items.pop(0) if ok else None
                 return ok
+            if name == "TryPeek" and len(args) == 1 and args[0][0] == "out":
+                self._pt(name)
+                env[args[0][2]] = self.items[0] if self.items else None
+                return bool(self.items)
+            if name in ("Count", "IsEmpty"):
+                raise CsError("%s.%s is a property, not a method" % (ty, name))
             if name in ("Dequeue",) and not args and ty == "Queue":
                 self._pt(name)
                 if not self.items:
